@@ -1249,6 +1249,9 @@ def run(tier, seed, replay=None):
     n_pairs = part_gitdag(chk, tier)
     n_e2e = part_e2e(chk, tier)
     below_a_cached_experiment(chk)
+    import c07 as _c07   # task names are case sensitive: a version of //:Prep is no version of //:prep (seed C07/i)
+
+    _c07.names_differing_in_case(chk)
     chk.coverage["distinct_nontrivial"] = n_stub_nt + n_acc + n_e2e
     chk.coverage["exhaustive"] = True
     chk.coverage["rule"] = (
